@@ -251,7 +251,7 @@ class GitStore(Store):
         if RepoCollectionMetadata.present(self.repo):
             return RepoCollectionMetadata(self.repo)
         else:
-            cp = configparser.ConfigParser()
+            cp = configparser.ConfigParser(interpolation=None)
             try:
                 cf = self._get_raw(CONFIG_FILENAME)
             except KeyError:
